@@ -88,7 +88,13 @@ LeafVerdict(ev) ==
 (* also a local change of the node that uses it -- equals() decides both with types_have_similar_structure -- otherwise the change   *)
 (* is recorded nowhere in leaf mode.                                                                                                 *)
 IndirKinds == {"pointer_diff", "reference_diff", "array_diff"}
-IndirOrphans(ev) == {n \in Nodes(ev) \ Roots(ev) : ev.nodes[n].hasLocal /\ ev.nodes[n].kindname \in IndirKinds /\ ~ev.nodes[ev.nodes[n].parent].hasLocal}
+(* the user of an indirection: the nearest ancestor that is not itself a pointer / reference / array / qualified type / typedef (an array of  *)
+(* pointers to functions is not "local" itself when only the pointed-to function type changed, the variable that has this type is)        *)
+PassKinds == IndirKinds \cup {"qualified_type_diff", "typedef_diff"}
+RECURSIVE Bearer(_, _)
+Bearer(ev, n) == LET p == ev.nodes[n].parent IN IF p = 0 THEN 0 ELSE IF ev.nodes[p].kindname \in PassKinds THEN Bearer(ev, p) ELSE p
+IndirOrphans(ev) == {n \in Nodes(ev) \ Roots(ev) : ev.nodes[n].hasLocal /\ ev.nodes[n].kindname \in IndirKinds
+                                                   /\ Bearer(ev, n) # 0 /\ ~ev.nodes[Bearer(ev, n)].hasLocal}
 
 (* Catalogue!CategoryOfKind: the pair differs by exactly one catalogue entry (ev.mutKind, "" otherwise) whose category class is        *)
 (* specified: some node carries that class in its local category.                                                                   *)
